@@ -391,7 +391,7 @@ def tasks_for(seed):
         if mesh != 'infile': secs.discard('SHORT')
         if flavour != 'AUTOUGH2': secs.discard('SIMUL')
         sizes = dict(kw.pop('sizes', None) or {})
-        sizes['main_excluded'] = sorted((set(['ELEME', 'CONNE']) if mesh != 'infile' else set()) | (set(xp[1]) if xp[0] == 'on' else set()))
+        sizes['main_excluded'] = sorted((set(['ELEME', 'CONNE']) if mesh != 'infile' else set()) | (set(xp[1]) if xp[0] != 'off' else set()))
         kw['sizes'] = sizes
         order = kw.pop('order', None) or [s for s in SECTIONS if s in secs]
         xs = 'xp-' + xp[0] + ('[' + ','.join(xp[1]) + ']' if len(xp) > 1 else '')
@@ -482,6 +482,8 @@ def tasks_for(seed):
             obj('probe:xp-grid+meshfile', fl, ALL, 'MESH', ('on', ['ROCKS', 'ELEME', 'CONNE']), bseed=seed + 18)
             obj('probe:xp-grid+meshfile', fl, ALL, 'MESH', ('on', ['ROCKS', 'ELEME']), bseed=seed + 18)
             obj('probe:xp-grid+meshfile', fl, ALL, 'BIN', ('on', ['ROCKS', 'ELEME']), bseed=seed + 18)
+        obj('probe:order=ELEME,COFT,CONNE', fl, ['ROCKS', 'COFT'], 'infile', bseed=seed + 20, sizes={'blocks': 4, 'connections': 3, 'keep_order': True},
+            order=(['SIMUL'] if fl == 'AUTOUGH2' else []) + ['ROCKS', 'PARAM', 'ELEME', 'COFT', 'CONNE'])
         for last in ('PARAM', 'ROCKS', 'TIMES', 'GENER', 'START'):
             for kwd in ('ENDFI', 'ENDCY'):
                 secs = closure(['ROCKS', 'TIMES', 'GENER', 'START']) | ({'SIMUL'} if fl == 'AUTOUGH2' else set())
